@@ -285,6 +285,12 @@ func (w *World) procOne(b *BackendConn) {
 		return
 	}
 	b.inbuf = b.inbuf[n:]
+	if b.closeWhenDrained {
+		// the connection is going away after the bytes already queued: nothing that
+		// arrives now is executed or answered
+		w.logf("proc %s %s dropped (connection closing)", b.C.Name, req)
+		return
+	}
 	w.Stat.BackendReqs++
 	idx := -1
 	if t.Armed {
@@ -595,4 +601,10 @@ func (w *World) DialBackend(tier, owner string) *simnet.Conn {
 		return nil
 	}
 	return c.(*simnet.Conn)
+}
+
+// KillBackend closes a backend connection from the backend's side (fault injection).
+func (w *World) KillBackend(b *BackendConn, silent bool) {
+	w.logf("cut %s silent=%v", b.C.Name, silent)
+	b.kill(silent)
 }
